@@ -14,9 +14,10 @@ SUPPORTED = ['FULLY_CONNECTED', 'BATCH_MATMUL', 'CONV_2D', 'DEPTHWISE_CONV_2D',
              'TRANSPOSE_CONV', 'AVERAGE_POOL_2D', 'RESHAPE', 'EMBEDDING_LOOKUP',
              'SOFTMAX', 'TANH', 'TRANSPOSE', 'GELU', 'ADD', 'SUB', 'MUL', 'MEAN',
              'RSQRT', 'CONCATENATION', 'STRIDED_SLICE', 'SPLIT', 'LOGISTIC']
-UNSUPPORTED = ['RELU', 'NEG', 'ABS', 'MAX_POOL_2D', 'EXP', 'RNN']
+UNSUPPORTED = ['RELU', 'NEG', 'ABS', 'MAX_POOL_2D', 'EXP', 'RNN', 'MAXIMUM']
 # a signature may return one tensor twice (same tensor index listed twice in subgraph.outputs)
 DUPLICATE_OUTPUTS = True
+DUP_PROB = 0.06
 # RSQRT normally reads a positive tensor; a check may allow any operand (NaN in the float model)
 RSQRT_ANY = False
 STATEFUL_ANYWHERE = False
@@ -120,6 +121,11 @@ class GraphBuilder:
       vals = vals * 1e4
     elif kind == 'zero':
       vals = vals * 0
+    elif kind == 'huge':     # around and beyond the float16 range (max 65504; 65520 rounds to inf)
+      vals = vals * 1e5
+      edge = [65504.0, 65519.0, 65520.0, -65520.0, 7e4, -3e7, 6.1e-5, 5.9e-8, 2.9e-8]
+      for i in range(min(n, 3)):
+        vals[rng.randrange(n)] = rng.choice(edge)
     tid = self.tensor(name, shape, FLOAT32, vals.reshape(shape))
     self.consts.append(tid)
     return tid
@@ -181,6 +187,23 @@ class GraphBuilder:
         return False
       out = self.act(self.oname(kind), x[1], pos=True)
       self.op(B.RSQRT, [x[0]], [out])
+      return True
+    if kind == 'MAXIMUM':
+      # an op the quantizer does not know WITH a constant operand; a second
+      # MAXIMUM often reuses the same constant tensor (as the converter does
+      # when it merges identical constants): a constant read only by unknown ops
+      x = self.pick(r2)
+      if x is None:
+        return False
+      prev = [c for c in getattr(self, 'max_consts', []) if c[1] == x[1][1]]
+      if prev and rng.random() < 0.6:
+        c = prev[-1][0]
+      else:
+        c = self.fconst(self.oname(kind, 'floor'), [x[1][1]], kind='normal')
+        self.max_consts = getattr(self, 'max_consts', []) + [(c, x[1][1])]
+      out = self.act(self.oname(kind), x[1])
+      self.op(B.MAXIMUM, [x[0], c], [out], S.BuiltinOptions.MaximumMinimumOptions,
+              S.MaximumMinimumOptionsT())
       return True
     if kind == 'RNN':
       if self.idx != 0 and not STATEFUL_ANYWHERE:
@@ -465,7 +488,7 @@ def gen_subgraph(mb, sg_index, key, n_ops, op_weights=None, want4d=None, fanout=
   if not outs:
     outs = [produced[-1][0]]
   rng.shuffle(outs)
-  if DUPLICATE_OUTPUTS and rng.random() < 0.06:
+  if DUPLICATE_OUTPUTS and rng.random() < DUP_PROB:
     outs.append(rng.choice(outs))      # one tensor returned under two output names
   gb.g.outputs = outs
   gb.g.inputs = np.array(gb.g.inputs, dtype=np.int32)
